@@ -10,7 +10,10 @@ import time
 from . import tlc
 
 VERIF = tlc.VERIF
-EVIDENCE = os.path.join(VERIF, 'evidence')
+# evidence describes /repo itself: a run against another tree (VT4_REPO = scratch worktree with a seeded change)
+# writes its evidence under scratch/ so that the committed files are never overwritten by such a run
+EVIDENCE = os.path.join(VERIF, 'evidence') if os.path.abspath(os.environ.get('VT4_REPO', '/repo')) == '/repo' \
+    else os.path.join(VERIF, 'scratch', 'evidence_other_tree')
 REPLAY = os.path.join(VERIF, 'replay')
 FINDINGS = os.path.join(VERIF, 'known_findings.json')
 
